@@ -7,6 +7,12 @@ ids = [p["id"] for p in props]
 
 # id -> (engine, technique, level text, level note, design ref)
 CLAIMED = {
+ "C10": ("E-TWIN", "proptest generation of histories x twin axis (CPU mask via hook H1, garbage fill of output/allocator memory, buffer placement, 2..16 concurrent threads); per-call comparison of twins; per-case digests compared across the ref, scalar (no std) and AVX-512 builds by the driver",
+         "exploration: the same deflate/inflate history executed under two CPU masks / fills / placements, in concurrent threads vs alone, and in three differently dispatched builds must agree on every status, counter, adler, data_type and output byte",
+         "threads: the harness does not own the schedule; with one relaxed atomic as the only shared state this is evidence of independence, not an exploration of interleavings. NEON/LSX/wasm paths are not compiled here", "DESIGN.md 6 (C10)"),
+ "C18": ("E-ALLOC", "proptest generation of histories; exhaustive enumeration of the failing allocation request (fail k-th, fail all from k) per history; tracking allocator with live set, opaque check, poison on free",
+         "fault_enumeration: for every generated deflate / inflate / inflateBack history (with dictionary, copy, reset, early End of the copy) every allocation request index is made to fail in both modes; the failing call must return Z_MEM_ERROR, the caller's ordinary clean-up (End on every stream incl. the destination of a failed copy) must leave the live set empty with no double/foreign free, re-init must work and surviving streams must reproduce the control output",
+         "zlib-rs makes one allocation per init/copy, so N is 1..2 per history and the enumeration in k is complete; the gz layer (Rust global allocator) is not covered by this check", "DESIGN.md 6 (C18)"),
  "C14": ("E-TWIN", "proptest generation of (history, cut point, continuation); twin execution in lock-step with per-call comparison; poisoning allocator",
          "exploration: deflateCopy/inflateCopy twins (original, copy, never-copied control; generated interleaving, one twin ended early) and reset twins (deflateReset, inflateReset, inflateReset2, Deflate::reset, Inflate::reset vs fresh init with the current parameters) must agree per call on status, bytes consumed/produced, totals, adler, data_type and output bytes",
          "inflateReset with windowBits 0 is compared through inflateReset2 only (like zlib, the window taken from the first header becomes the stream's parameter); deflateResetKeep is not claimed equal to a fresh init (it keeps the window by contract)", "DESIGN.md 6 (C14)"),
